@@ -38,10 +38,9 @@ def scenarios(tier):
     out.append(_scen('A1+A1+termA', {'A': [s1, s1b, term], 'B': []}, dev_bound=0, weight=30))
     out.append(_scen('A5+termB', {'A': [s5], 'B': [term]}, dev_bound=0, weight=30))
     out.append(_scen('A5+termA', {'A': [s5, term], 'B': []}, dev_bound=0, weight=30))
-    out.append(_scen('A1+termA|B1', {'A': [s1, term], 'B': [s1b]}, dev_bound=0, weight=40))
-    out.append(_scen('clamp-A5', {'A': [s5], 'B': []}, dev_bound=1, tx_init={'A': 64, 'B': 64},
+    out.append(_scen('clamp-A5', {'A': [s5], 'B': []}, dev_bound=0, tx_init={'A': 64, 'B': 64},
                      seg_mru={'A': 4, 'B': 2}, weight=25))
-    out.append(_scen('mru-asym-A3|B3', {'A': [s3], 'B': [s3]}, dev_bound=0, tx_init={'A': 3, 'B': 8},
+    out.append(_scen('mru-asym-A3|B1', {'A': [s3], 'B': [s1]}, dev_bound=0, tx_init={'A': 3, 'B': 8},
                      seg_mru={'A': 2, 'B': 4}, weight=40))
     out.append(_scen('len0+len1', {'A': [('send', ''), s1], 'B': []}, dev_bound=0, weight=5))
     out.append(_scen('termA|termB-d1', {'A': [term], 'B': [term]}, dev_bound=1, weight=10))
@@ -51,6 +50,9 @@ def scenarios(tier):
         out.append(_scen('termA+A5|termB', {'A': [s5, term], 'B': [term]}, dev_bound=0, weight=60))
         out.append(_scen('A5|B1-d1', {'A': [s5], 'B': [s1]}, dev_bound=1, weight=80))
         out.append(_scen('A3+termA|B1', {'A': [s3, term], 'B': [s1]}, dev_bound=0, weight=80))
+        out.append(_scen('A1+termA|B1', {'A': [s1, term], 'B': [s1b]}, dev_bound=0, weight=80))
+        out.append(_scen('clamp-A5-d1', {'A': [s5], 'B': []}, dev_bound=1, tx_init={'A': 64, 'B': 64},
+                         seg_mru={'A': 4, 'B': 2}, weight=25))
         out.append(_scen('mru-asym-A5|B3', {'A': [s5], 'B': [s3]}, dev_bound=0, tx_init={'A': 3, 'B': 8},
                          seg_mru={'A': 2, 'B': 4}, weight=60))
     return out
